@@ -125,11 +125,12 @@ pub fn run_c06_case(c: &C06Case) -> Result<(bool, bool), Violation> {
 }
 
 fn gen_c06_case(src: &mut Src, quick: bool, marathon: bool) -> Option<C06Case> {
-  let fam = match src.weighted(&[35, 25, 20, 20]) {
+  let fam = match src.weighted(&[28, 20, 16, 16, 20]) {
     0 => Family::AbsorbingDense,
     1 => Family::RepeatDense,
     2 => Family::General,
-    _ => Family::Tagged,
+    3 => Family::Tagged,
+    _ => Family::Siblings,
   };
   let opts = LayoutOpts { allow_absorbing: true, max_alphabet: 8 };
   let fam = if src.chance(if marathon { 70 } else { 6 }) { Family::Wide } else { fam };
@@ -545,16 +546,17 @@ pub fn check(cfg: &RunCfg, _findings: &Findings) -> Report {
     cfg,
     "C06-product-sweep",
     16,
-    if quick { 30 } else { 800 },
+    if quick { 96 } else { 1_600 },
     48,
-    160,
+    300,
     150,
     |src: &mut Src| {
-      let fam = match src.weighted(&[45, 25, 15, 15]) {
+      let fam = match src.weighted(&[32, 18, 10, 10, 30]) {
         0 => Family::AbsorbingDense,
         1 => Family::RepeatDense,
         2 => Family::General,
-        _ => Family::Tagged,
+        3 => Family::Tagged,
+        _ => Family::Siblings,
       };
       loaded(gen_family(src, fam, &LayoutOpts { allow_absorbing: true, max_alphabet: if quick { 5 } else { 6 } }))
     },
